@@ -241,9 +241,18 @@ def run_shard(args):
         # how pytest is started: in the project root, or in another directory with the path of the tests as argument
         iname, cwd_sub, pathargs = INVOCATIONS[(args.shard // 2 + c) % len(INVOCATIONS)]
         C["invocation_" + iname] = C.get("invocation_" + iname, 0) + 1
-        proj = session.Project({"test_a.py": src})
+        pfiles = {"test_a.py": src}
+        extra_args = []
+        if (args.shard + c) % 2 == 0:
+            # snapshots evaluated by code that has no source file of its own (doctest examples, exec'd documentation
+            # samples): they hold, nothing has to be rewritten for them - they must not disturb the end of the session
+            pfiles["calc.py"] = 'def gcd(a, b):\n    """\n    >>> from inline_snapshot import snapshot\n    >>> gcd(4, 6) == snapshot(2)\n    True\n    """\n    while b:\n        a, b = b, a % b\n    return a\n'
+            pfiles["test_exec.py"] = "def test_exec_sample():\n    ns = {}\n    exec('from inline_snapshot import snapshot\\nassert 1 == snapshot(1)\\nassert [1, 2] == snapshot([1, 2])\\n', ns)\n"
+            extra_args = ["--doctest-modules"]
+            C["sessions_with_sourceless_snapshots"] = C.get("sessions_with_sourceless_snapshots", 0) + 1
+        proj = session.Project(pfiles)
         try:
-            r = session.run_session(proj, fargs + pathargs, cwd_sub=cwd_sub, env={"FORCE_COLOR": "true", "PYTHONPATH": ":".join([common.SRC, str(common.VERIF), str(common.VERIF / "stubs")])} if stdin else {"PYTHONPATH": ":".join([common.SRC, str(common.VERIF), str(common.VERIF / "stubs")])}, stdin=stdin)
+            r = session.run_session(proj, fargs + extra_args + pathargs, cwd_sub=cwd_sub, env={"FORCE_COLOR": "true", "PYTHONPATH": ":".join([common.SRC, str(common.VERIF), str(common.VERIF / "stubs")])} if stdin else {"PYTHONPATH": ":".join([common.SRC, str(common.VERIF), str(common.VERIF / "stubs")])}, stdin=stdin)
         finally:
             proj.close()
         C["real_sessions"] = C.get("real_sessions", 0) + 1
